@@ -195,6 +195,15 @@ Lemma mul_b2t (a : R) (b : bool) : a * b2t RN b = if b then a else 0.
 Proof. unfold b2t; destruct b; rn_simpl; lra. Qed.
 Lemma decay_of_R tau dt : decay_of RN tau dt = exp (- dt / tau).
 Proof. reflexivity. Qed.
+(* the generated kernel satisfies a recurrence equation: robust against harmless rewrites of the Python
+   expression (operand order, association), since it ends in case analysis + ring *)
+Ltac kernel_eq :=
+  rewrite ?decay_of_R; unfold matchb, b2t; rn_simpl;
+  repeat match goal with
+         | |- context [match ?t with Some _ => _ | None => _ end] => destruct t
+         | |- context [if ?b then _ else _] => destruct b
+         end;
+  rn_simpl; try reflexivity; try ring.
 
 (* a step of a trace reducer: the generated kernel applied with the decay the reducer holds for the
    step time in force *)
@@ -222,9 +231,8 @@ Theorem cumulative_closed tau a target tol (l : list (R * R)) :
     end.
 Proof.
   apply (cum_generic tau (cumulative_step tau a target tol) (fun o => if matchb target tol o then a else 0)).
-  - intros dt o. unfold cumulative_step, trace_cumulative. destruct tol; rn_simpl; apply mul_b2t.
-  - intros dt o s. unfold cumulative_step, trace_cumulative. rewrite decay_of_R.
-    destruct tol; rn_simpl; unfold matchb; rewrite mul_b2t; reflexivity.
+  - intros dt o. unfold cumulative_step, trace_cumulative. kernel_eq.
+  - intros dt o s. unfold cumulative_step, trace_cumulative. kernel_eq.
 Qed.
 
 (* nearest trace = a * exp(-(t - t_last)/tau), 0 before the first event *)
@@ -240,8 +248,8 @@ Theorem nearest_closed tau a target tol (l : list (R * R)) :
 Proof.
   rewrite (near_generic tau (nearest_step tau a target tol) (matchb target tol) (fun _ => a)).
   - unfold near_closed. destruct l; [reflexivity|]. destruct (last_event _ _) as [[? ?]|]; reflexivity.
-  - intros dt o. unfold nearest_step, trace_nearest. destruct tol; rn_simpl; apply mul_b2t.
-  - intros dt o s. unfold nearest_step, trace_nearest. rewrite decay_of_R. destruct tol; rn_simpl; reflexivity.
+  - intros dt o. unfold nearest_step, trace_nearest. kernel_eq.
+  - intros dt o s. unfold nearest_step, trace_nearest. kernel_eq.
 Qed.
 
 (* scaled variants: every matching observation h contributes scale*h + amplitude *)
@@ -253,9 +261,8 @@ Theorem cumulative_scaled_closed tau a scale crit (l : list (R * R)) :
     end.
 Proof.
   apply (cum_generic tau (cumulative_scaled_step tau a scale crit) (fun o => if crit o then scale * o + a else 0)).
-  - intros dt o. unfold cumulative_scaled_step, trace_cumulative_scaled. rn_simpl. apply mul_b2t.
-  - intros dt o s. unfold cumulative_scaled_step, trace_cumulative_scaled. rewrite decay_of_R. rn_simpl.
-    rewrite mul_b2t. reflexivity.
+  - intros dt o. unfold cumulative_scaled_step, trace_cumulative_scaled. kernel_eq.
+  - intros dt o s. unfold cumulative_scaled_step, trace_cumulative_scaled. kernel_eq.
 Qed.
 Theorem nearest_scaled_closed tau a scale crit (l : list (R * R)) :
   run_state (nearest_scaled_step tau a scale crit) l
@@ -269,8 +276,8 @@ Theorem nearest_scaled_closed tau a scale crit (l : list (R * R)) :
 Proof.
   rewrite (near_generic tau (nearest_scaled_step tau a scale crit) crit (fun o => scale * o + a)).
   - unfold near_closed. destruct l; reflexivity.
-  - intros dt o. unfold nearest_scaled_step, trace_nearest_scaled. rn_simpl. apply mul_b2t.
-  - intros dt o s. unfold nearest_scaled_step, trace_nearest_scaled. rewrite decay_of_R. rn_simpl. reflexivity.
+  - intros dt o. unfold nearest_scaled_step, trace_nearest_scaled. kernel_eq.
+  - intros dt o s. unfold nearest_scaled_step, trace_nearest_scaled. kernel_eq.
 Qed.
 
 (* conditional variants: the event condition is a second input *)
@@ -282,9 +289,8 @@ Theorem cumulative_conditional_closed tau a scale (l : list (R * (R * bool))) :
     end.
 Proof.
   apply (cum_generic tau (cumulative_cond_step tau a scale) (fun oc : R * bool => if snd oc then scale * fst oc + a else 0)).
-  - intros dt o. unfold cumulative_cond_step, trace_cumulative_scaled. rn_simpl. apply mul_b2t.
-  - intros dt o s. unfold cumulative_cond_step, trace_cumulative_scaled. rewrite decay_of_R. rn_simpl.
-    rewrite mul_b2t. reflexivity.
+  - intros dt o. unfold cumulative_cond_step, trace_cumulative_scaled. kernel_eq.
+  - intros dt o s. unfold cumulative_cond_step, trace_cumulative_scaled. kernel_eq.
 Qed.
 Theorem nearest_conditional_closed tau a scale (l : list (R * (R * bool))) :
   run_state (nearest_cond_step tau a scale) l
@@ -298,8 +304,8 @@ Theorem nearest_conditional_closed tau a scale (l : list (R * (R * bool))) :
 Proof.
   rewrite (near_generic tau (nearest_cond_step tau a scale) (@snd R bool) (fun oc : R * bool => scale * fst oc + a)).
   - unfold near_closed. destruct l; reflexivity.
-  - intros dt o. unfold nearest_cond_step, trace_nearest_scaled. rn_simpl. apply mul_b2t.
-  - intros dt o s. unfold nearest_cond_step, trace_nearest_scaled. rewrite decay_of_R. rn_simpl. reflexivity.
+  - intros dt o. unfold nearest_cond_step, trace_nearest_scaled. kernel_eq.
+  - intros dt o s. unfold nearest_cond_step, trace_nearest_scaled. kernel_eq.
 Qed.
 
 (* trace_cumulative_value: every observation contributes scale * h *)
@@ -311,8 +317,8 @@ Theorem cumulative_value_closed tau scale (l : list (R * R)) :
     end.
 Proof.
   apply (cum_generic tau (cumulative_value_step tau scale) (fun o => scale * o)).
-  - intros dt o. reflexivity.
-  - intros dt o s. unfold cumulative_value_step, trace_cumulative_value. rewrite decay_of_R. rn_simpl. reflexivity.
+  - intros dt o. unfold cumulative_value_step, trace_cumulative_value. kernel_eq.
+  - intros dt o s. unfold cumulative_value_step, trace_cumulative_value. kernel_eq.
 Qed.
 
 (* fixed step time: the flagship form, with the number of steps since each observation *)
